@@ -9,13 +9,13 @@ import (
 	"encoding/base64"
 	"fmt"
 	"io"
+	"net"
 	"os"
 	"path/filepath"
 	"strings"
 	"sync"
 	"time"
 
-	"cedarverif/harness/internal/bufpipe"
 	"cedarverif/harness/internal/refcodec"
 
 	"github.com/PelicanPlatform/classad/classad"
@@ -150,7 +150,7 @@ func contains(l []string, s string) bool {
 	return false
 }
 
-func runScriptedServer(ctx context.Context, conn *bufpipe.Conn, sc srvScript, lg *peerLog) {
+func runScriptedServer(ctx context.Context, conn net.Conn, sc srvScript, lg *peerLog) {
 	defer conn.Close()
 	st := stream.NewStream(conn)
 	in := message.NewMessageFromStream(st)
@@ -340,7 +340,7 @@ func outcomeLine(neg *security.SecurityNegotiation, st *stream.Stream, ranOK []s
 
 // runClientCase: real ClientHandshake against a scripted server.
 func runClientCase(c *Ctx, cfg clientCfg, sc srvScript) Case {
-	ca, cb := bufpipe.Pair("10.0.0.1:1111", "10.0.0.2:9618")
+	ca, cb, tap := tappedPair("10.0.0.1:1111", "10.0.0.2:9618", "")
 	ctx, cancel := context.WithTimeout(context.Background(), hsScriptTimeout)
 	defer cancel()
 	lg := &peerLog{}
@@ -414,6 +414,7 @@ func runClientCase(c *Ctx, cfg clientCfg, sc srvScript) Case {
 		if st.IsEncrypted() && skey != nil && !bytes.Equal(neg.GetSharedSecret(), skey) {
 			viol("key-mismatch", "client and server derived different keys", "same key", "different")
 		}
+		trafficAfterHandshake(ctx, st, tap, 0, neg.GetSharedSecret(), cfg.enc == "REQUIRED" || cfg.integ == "REQUIRED", canaryC2S, viol)
 	}
 	ca.Close()
 	<-done
@@ -450,7 +451,7 @@ type cliObs struct {
 	key              []byte
 }
 
-func runScriptedClient(ctx context.Context, conn *bufpipe.Conn, sc cliScript, ob *cliObs, mu *sync.Mutex) {
+func runScriptedClient(ctx context.Context, conn net.Conn, sc cliScript, ob *cliObs, mu *sync.Mutex) {
 	defer conn.Close()
 	var once sync.Once
 	settle := func() { once.Do(func() { close(ob.settled) }) }
@@ -598,7 +599,7 @@ func runScriptedClient(ctx context.Context, conn *bufpipe.Conn, sc cliScript, ob
 }
 
 func runServerCase(c *Ctx, cfg serverCfg, sc cliScript) Case {
-	ca, cb := bufpipe.Pair("10.0.0.1:1111", "10.0.0.2:9618")
+	ca, cb, tap := tappedPair("10.0.0.1:1111", "10.0.0.2:9618", "")
 	ctx, cancel := context.WithTimeout(context.Background(), hsScriptTimeout)
 	defer cancel()
 	ob := &cliObs{settled: make(chan struct{})}
@@ -668,6 +669,7 @@ func runServerCase(c *Ctx, cfg serverCfg, sc cliScript) Case {
 		if st.IsEncrypted() && ckey != nil && !bytes.Equal(neg.GetSharedSecret(), ckey) {
 			viol("key-mismatch", "client and server derived different keys", "same key", "different")
 		}
+		trafficAfterHandshake(ctx, st, tap, 1, neg.GetSharedSecret(), cfg.enc == "REQUIRED" || cfg.integ == "REQUIRED", canaryS2C, viol)
 		cb.Close()
 		<-done
 	}
@@ -1020,12 +1022,15 @@ const canaryC2S, canaryS2C = "CANARY-c2s-7f3a91e4", "CANARY-s2c-b26d08c5"
 // openProtected re-opens, with the independent codec, everything both ends wrote under the key:
 // the post-authentication ad (first protected frame server->client) and the application messages.
 // clear[d] = bytes of direction d written before its first protected frame.
-func openProtected(tp *wireTap, key []byte, clearLen [2]int) string {
+func openProtected(tp *wireTap, key []byte, clearLen [2]int, dirs ...int) string {
+	if len(dirs) == 0 {
+		dirs = []int{0, 1}
+	}
 	raw := [2][]byte{tp.written(0), tp.written(1)}
 	dg := func(d int) [32]byte { return refcodec.Digest(raw[d][:clearLen[d]], clearLen[d] > 0) }
 	bad := append([]byte{}, key...)
 	bad[len(bad)-1] ^= 1
-	for d := 0; d < 2; d++ {
+	for _, d := range dirs {
 		dir, err := refcodec.NewDir(key, dg(d), dg(1-d))
 		if err != nil {
 			return "key unusable: " + err.Error()
@@ -1047,6 +1052,64 @@ func openProtected(tp *wireTap, key []byte, clearLen [2]int) string {
 		}
 	}
 	return "ok"
+}
+
+// clearLens: where each direction's cleartext ends at the moment a full handshake has returned.
+// The client sends nothing under the key during a full handshake; the server's last handshake
+// message (the post-authentication ad) is its first protected one when a key was installed.
+func clearLens(tap *wireTap, keyed bool) (cl [2]int) {
+	ms := tap.messages()
+	cl[0] = len(tap.written(0))
+	lastSrv := -1
+	for k := range ms {
+		if ms[k].dir == 1 {
+			lastSrv = k
+		}
+	}
+	for k := range ms {
+		if ms[k].dir == 1 && (k != lastSrv || !keyed) {
+			for _, f := range ms[k].frames {
+				cl[1] += 5 + len(f.Body)
+			}
+		}
+	}
+	return
+}
+
+// trafficAfterHandshake: the endpoint under test (writing direction dir) sends one application
+// message carrying a canary right after its handshake returned success. On the RAW bytes it wrote:
+// the canary must not be readable when the stream claims protection or the endpoint's own policy
+// makes encryption/integrity REQUIRED, and every protected frame must open under the session key
+// with the transcript digests as associated data -- and not under another key.
+func trafficAfterHandshake(ctx context.Context, st *stream.Stream, tap *wireTap, dir int, key []byte, required bool, canary string, viol func(key, what, exp, obs string)) {
+	keyed := st.IsEncrypted()
+	cl := clearLens(tap, keyed)
+	before := len(tap.written(dir))
+	if err := st.SendMessage(ctx, []byte(canary)); err != nil {
+		return // the peer is gone; nothing was sent that could be looked at
+	}
+	sent := tap.written(dir)[before:]
+	if bytes.Contains(sent, []byte(canary)) && (keyed || required) {
+		why := "the stream reports IsEncrypted()"
+		if !keyed {
+			why = "its policy makes encryption/integrity REQUIRED"
+		}
+		viol("traffic-in-clear", "application data sent right after a successful handshake is readable on the wire although "+why, "canary absent from the raw bytes", "canary present in the bytes written")
+		return
+	}
+	if keyed {
+		if len(key) != 32 {
+			viol("traffic-not-sealed", "the stream is keyed but the handshake reports no 32-byte session key", "a session key", fmt.Sprintf("%d bytes", len(key)))
+			return
+		}
+		dirs := []int{1}
+		if dir == 0 {
+			dirs = []int{0, 1}
+		}
+		if r := openProtected(tap, key, cl, dirs...); r != "ok" {
+			viol("traffic-not-sealed", "traffic after the handshake is not AES-GCM protected under the session key as documented", "every frame opens under the session key (and the first one under no other key)", r)
+		}
+	}
 }
 
 func runHonestPairX(cc clientCfg, sc serverCfg, cmd int, clientSees string) (r pairRun) {
@@ -1088,21 +1151,7 @@ func runHonestPairX(cc clientCfg, sc serverCfg, cmd int, clientSees string) (r p
 		// where each direction's cleartext ends: the client sends nothing under the key during a full
 		// handshake; the server's last handshake message (the post-authentication ad) is its first
 		// protected one
-		var clearLen [2]int
-		clearLen[0] = len(tap.written(0))
-		lastSrv := -1
-		for k := range ms {
-			if ms[k].dir == 1 {
-				lastSrv = k
-			}
-		}
-		for k := range ms {
-			if ms[k].dir == 1 && k != lastSrv {
-				for _, f := range ms[k].frames {
-					clearLen[1] += 5 + len(f.Body)
-				}
-			}
-		}
+		clearLen := clearLens(tap, cst.IsEncrypted() || sst.IsEncrypted())
 		// immediately exchange a message each way
 		e1 := cst.SendMessage(ctx, []byte(canaryC2S))
 		m1, e2 := sst.ReceiveCompleteMessage(ctx)
